@@ -791,8 +791,22 @@ func (c *compiler) evalCallExpression(node *ast.CallExpression) (interface{}, er
 					compiler: c,
 					block:    node.Block,
 				}
-				args = append(args, reflect.ValueOf(hargs))
-				return
+				hv := reflect.ValueOf(hargs)
+				switch {
+				case hv.Type().AssignableTo(arg):
+					args = append(args, hv)
+					return
+				case hv.Type().ConvertibleTo(arg):
+					// a type defined as HelperContext
+					args = append(args, hv.Convert(arg))
+					return
+				case reflect.PtrTo(hv.Type()).AssignableTo(arg):
+					// *HelperContext, or an interface only the pointer implements
+					pv := reflect.New(hv.Type())
+					pv.Elem().Set(hv)
+					args = append(args, pv)
+					return
+				}
 			}
 
 			if arg.ConvertibleTo(reflect.TypeOf(map[string]interface{}{})) {
